@@ -168,6 +168,7 @@ def plan_C01(tier, rng):
         inputs += [(s, t, F) for (s, t) in gens.underflow_boundary(F, 10, 10, 10, "e")]
         inputs += [(s, t, F) for (s, t) in gens.random_decimal(rng, 400 if quick else 6000)]
         inputs += [(s, t, F) for (s, t) in gens.random_long_decimal(rng, 10 if quick else 150)]
+        inputs += [(s, t, F) for (s, t) in gens.zero_padded_decimal(rng, 60 if quick else 1500)]
         inputs += [(s, t, F) for (s, t) in gens.sticky_placement_inputs(F, rng, (2 if F is F64 else 4) if quick else 30)]
     i = 0
     for (s, tag, F) in inputs:
@@ -511,6 +512,7 @@ def decimal_float_corpus(rng, n_half, n_rand, longs=4):
         out += [(s, F) for (s, t) in gens.underflow_boundary(F, 10, 10, 10, "e")]
         out += [(s, F) for (s, t) in gens.random_decimal(rng, n_rand)]
         out += [(s, F) for (s, t) in gens.random_long_decimal(rng, longs)]
+        out += [(s, F) for (s, t) in gens.zero_padded_decimal(rng, max(12, n_half // 2))]
     return out
 
 
@@ -593,8 +595,31 @@ def plan_C10(tier, rng):
                 o = opts_for_fmt(f) if isf else {"nmd": False}
                 cs.parse(ep, ty, f["id"], data, ["rf"], wo=True, opts=o, place=place, tag="flagged-format")
                 cs.parse(ep, ty, f["id"], data, ["rf"], wo=True, opts=o, partial=True, place=place)
+    # every decimal exponent around and far beyond both ends of every power table, short and long mantissas, in the
+    # builds that select different algorithms (Lemire / Bellerophon); S-C10-c: table index just below the smallest power
+    import math
+    swc = ["default", "rf", "compact", "crf"]
+    for q in range(-420, 421):
+        i += 1
+        ep = cs.new_ep()
+        for (k, m) in enumerate(("1", "12345678901234567890", "0.00001", "9.999999999999999999999")):
+            ty = "f32" if (i + k) % 3 == 0 else "f64"
+            c = [swc[(i + k) % len(swc)]]
+            cs.parse(ep, ty, 0, B("%se%d" % (m, q)), c, partial=(k % 2 == 1), tag="exponent-sweep")
+    for r in ([3, 7, 12, 36, 2, 16] if quick else [x for x in range(2, 37) if x != 10]):
+        rc = radix_cfgs(r, ["rf", "crf"])
+        ec = exp_char(r)
+        for F in (F64, F32):
+            lo = int(F["emin"] * math.log(2) / math.log(r))
+            hi = int((F["emax"] + F["p"]) * math.log(2) / math.log(r))
+            for q in list(range(lo - 70, lo + 8)) + list(range(hi - 8, hi + 50)):
+                i += 1
+                ep = cs.new_ep()
+                for (k, m) in enumerate(("1", gens.DIG[r - 1] * 30)):
+                    cs.parse(ep, F["name"], radix_fmt(r), B("%s%s%s" % (m, chr(ec), gens.exp_str(q, r))), [rc[(i + k) % len(rc)]],
+                             wo=True, opts=pf(exp=ec), partial=(k == 1), tag="exponent-sweep-radix")
     models = [("MC_IntParse.tla", "MC_IntParse.cfg" if quick else "MC_IntParse_thorough.cfg", 8, 1800)]
-    return cs, models, {"input_families": cs.tags, "configurations": cfgs, "profiles": ["release", "dbg"]}
+    return cs, models, {"input_families": cs.tags, "configurations": cfgs + ["compact", "crf"], "profiles": ["release", "dbg"]}
 
 
 # ================================================================================================
@@ -653,6 +678,25 @@ def plan_C11(tier, rng):
         cs.parse(ep, ty, w["f"], data, ["rf"], wo=True, opts=o, tag="witness")
         cs.parse(ep, ty, w["f"], data, ["rf"], wo=True, opts=o, partial=True, want_prefix=True)
 
+    # special strings, with separators where the format allows them inside specials, alone and followed by other bytes
+    # (S-C11-c: a length shortcut in the complete parser's special fallback only)
+    specials = ["nan", "inf", "infinity", "NaN", "INF", "Infinity", "in_finity", "i_n_f", "n_a_n", "infinity_", "_nan", "nan_", "n__an",
+                "i_n_f_i_n_i_t_y", "nan______", "_inf_", "infinit", "infi", "na"]
+    for fname in ("STANDARD", "sep_special", "sep_all_flags", "syn_case_sensitive_special", "sep_all_i"):
+        fid_ = fmt_id(fname)
+        for sp_ in specials:
+            for sign in ("", "-", "+"):
+                for tail in ("", ";", "x", "_", "1", "e5", "."):
+                    i += 1
+                    if quick and i % 2:
+                        continue
+                    if i % 8 == 0:
+                        ep = cs.new_ep()
+                    data = B(sign + sp_ + tail)
+                    ty = "f32" if i % 3 == 0 else "f64"
+                    cs.parse(ep, ty, fid_, data, ["rf"], wo=True, opts=pf(), tag="special-strings")
+                    cs.parse(ep, ty, fid_, data, ["rf"], wo=True, opts=pf(), partial=True, want_prefix=True)
+
     def phase2(events, cs2):
         # after seeing n: the complete parser on the first n bytes
         for e in events:
@@ -695,6 +739,10 @@ def plan_C16(tier, rng):
         vals = gens.float_values(F, rng, nrand=150 if quick else 4000, per_binade=0,
                                  binades=samp(rng, range((1 << F["ebits"]) - 1), 60 if quick else 250))
         vals += gens.endpoint_family(F, rng, 19 if F is F64 else 8, 22 if F is F64 else 10)
+        # exact powers of two (the shorter-interval case of Dragonbox, the asymmetric boundary of Grisu): all f32, a sample of f64
+        nbp = (1 << F["ebits"]) - 1
+        pows = list(range(1, nbp)) if (F is F32 or not quick) else samp(rng, range(1, nbp), 300)
+        vals += [("%x" % (ef << F["mbits"]), "power-of-two") for ef in pows]
         for (bits, tag) in vals:
             ep = cs.new_ep()
             cs.write(ep, F["name"], 0, bits, cfgs, tag="write-float", want_back=True)
@@ -779,6 +827,17 @@ def plan_C17(tier, rng):
                     bits = gens.pyfloat_bits(F, x)
                     cs.write(ep, F["name"], 0, bits, c, wo=True, opts=o, tag="bound-tight-options")
                     cs.write(ep, F["name"], 0, bits, c, wo=True, opts=o, api="facade")
+    # special strings with every byte value inside: whenever the code calls the options valid, what is written is ASCII
+    # (S-C17-c: a case-folding mask that lets Latin-1 letters through the letter check of the special strings)
+    for b in range(256):
+        if b % 16 == 0:
+            ep = cs.new_ep()
+        o = wf(nan=[78, b, 78], inf=[105, b, 102])
+        c = [cfgs[b % len(cfgs)]]
+        for bits in ("7ff8000000000000", "fff0000000000000"):
+            cs.write(ep, "f64", 0, bits, c, wo=True, opts=o, tag="any-byte-special-string")
+            if b % 4 == 0:
+                cs.write(ep, "f64", 0, bits, c, wo=True, opts=o, api="facade")
     # punctuation bytes from the whole byte range: whenever the code calls the options valid, everything written is ASCII
     for b in list(range(0, 256, 5)) + [0x7f, 0x80, 0xb7, 0xff, 0x09, 0x20]:
         ep = cs.new_ep()
@@ -1189,7 +1248,8 @@ def plan_C09(tier, rng):
               ("MC_Bounds.tla", "MC_Bounds_exh.cfg", 8, 3600),
               ("AP_Bounds.tla", "apalache:Sufficient", 1, 1200),      # the same statement for ALL integer option values
               ("MC_FloatWrite.tla", "MC_FloatWrite_quick.cfg" if quick else "MC_FloatWrite.cfg", 8, 1800)]
-    return cs, models, {"input_families": cs.tags, "configurations": cfgs, "phase2": phase2}
+    # also in a debug-assertions build (default and rf): an over-strict debug assertion is a panic with the documented buffer
+    return cs, models, {"input_families": cs.tags, "configurations": cfgs, "phase2": phase2, "profiles": ["release", "dbg"]}
 
 
 # ================================================================================================
@@ -1531,6 +1591,44 @@ def plan_C13(tier, rng):
                 cs.parse(ep, ty, f["id"], v, ["rf"], wo=True, opts=o, tag="grouped-by-3")
                 cs.parse(ep, ty, f["id"], plain, ["rf"], wo=True, opts=o)
             cs.parse(ep, "f64", f["id"], v + "e-7", ["rf"], wo=True, opts=o)
+        if hexa:
+            continue
+        # leading zeros with separators among them, then more than 19 significant digits: the zeros (and the separators
+        # skipped with them) must not count against the 64-bit mantissa (S-C13-c)
+        sp_ = chr(sepc)
+        d20 = rng.choice("123456789") + "".join(rng.choice("0123456789") for _ in range(21))
+        zforms = []
+        if enabled("integer", "internal"):
+            zforms += ["0" + sp_ + "0." + d20, "0" + sp_ + "0" + sp_ + "0" + d20, "0" + sp_ + "00" + sp_ + d20[:10] + "." + d20[10:]]
+        if enabled("fraction", "internal"):
+            zforms += ["0.0" + sp_ + "0" + sp_ + "0" + sp_ + d20, "0.00" + sp_ + "0" + d20, "1.0" + sp_ + "0" + sp_ + d20]
+        for v in zforms:
+            i += 1
+            ep = cs.new_ep()
+            plain = v.replace(sp_, "")
+            for ty in ("f64", "f32"):
+                cs.parse(ep, ty, f["id"], v, ["rf"], wo=True, opts=o, tag="separated-leading-zeros-long")
+                cs.parse(ep, ty, f["id"], plain, ["rf"], wo=True, opts=o)
+        # exact halfway expansions (slow big-integer path) with separators inside the long fraction / integer
+        hw = [("1.00000000000000011102230246251565404236316680908203125", 0), ("9007199254740993", 0),
+              ("1.00000000000000033306690738754696212708950042724609375", 0),
+              ("0.500000000000000055511151231257827021181583404541015625", 0)]
+        for (hs, _) in hw:
+            for delta in (0, 1, -1):
+                digs_ = hs.replace(".", "")
+                pt = hs.index(".") if "." in hs else len(hs)
+                dnew = str(int(digs_) + delta).rjust(len(digs_), "0")
+                ip_, fp_ = dnew[:pt], dnew[pt:]
+                variants_ = []
+                if fp_ and enabled("fraction", "internal"):
+                    variants_ += [ip_ + "." + fp_[:-2] + sp_ + fp_[-2:], ip_ + "." + fp_[:20] + sp_ + fp_[20:], ip_ + "." + group3(fp_, True)]
+                if len(ip_) > 3 and enabled("integer", "internal"):
+                    variants_ += [group3(ip_, False) + ("." + fp_ if fp_ else ""), ip_[:-1] + sp_ + ip_[-1:] + ("." + fp_ if fp_ else "")]
+                for v in variants_:
+                    i += 1
+                    ep = cs.new_ep()
+                    cs.parse(ep, "f64", f["id"], v, ["rf"], wo=True, opts=o, tag="separated-halfway")
+                    cs.parse(ep, "f64", f["id"], v.replace(sp_, ""), ["rf"], wo=True, opts=o)
     return cs, [model], {"input_families": cs.tags, "configurations": ["rf"]}
 
 
@@ -1608,6 +1706,26 @@ def plan_C15(tier, rng):
                         continue
                     wo_ = wf(exp=exp_char(r), nan=B(nan) if nan else [], inf=B(inf) if inf else [])
                     cs.write(ep, F_["name"], fid, "%x" % bits, [cfgs[0]], wo=True, opts=wo_, tag="special-write", want_back=True)
+    # numeric inputs far outside the range: infinity / zero with the sign of the input, never NaN, in every algorithm family
+    # (S-C15-c: overflow by exponent left mantissa bits set -> NaN, in the paths that round through shared::round)
+    import math
+    huge = ["2e308", "1.8e308", "1e309", "-1e309", "4e38", "-3.5e38", "1e400", "123456789012345678901234567890e300", "-1e999999999",
+            "1e-400", "-1e-400", "-0.0", "-0e999", "179769313486231580793728971405303415079934132710037826936173778980444968292764750946649017977587207096330286416692887910946555547851940402630657488671505820681908902000708383676273854845817711531764475730270069855571366959622842914819860834936475292719074168444365510704342711559699508093042880177904174497792"]
+    for (k, s_) in enumerate(huge):
+        ep = cs.new_ep()
+        for c in ("default", "compact", "rf", "crf"):
+            for ty in ("f64", "f32"):
+                cs.parse(ep, ty, 0, B(s_), [c], partial=(k % 2 == 1), tag="numeric-out-of-range")
+    for r in (2, 3, 7, 12, 16, 32, 36):
+        ec = exp_char(r)
+        for F_ in (F64, F32):
+            hi = int((F_["emax"] + F_["p"]) * math.log(2) / math.log(r))
+            lo = int(F_["emin"] * math.log(2) / math.log(r))
+            ep = cs.new_ep()
+            for q in (hi + 1, hi + 2, hi + 9, hi * 3, lo - 3, lo - 40):
+                for m in ("1", "-" + gens.DIG[r - 1] * 3, gens.DIG[r - 1] + "." + gens.DIG[1] * 25):
+                    cs.parse(ep, F_["name"], radix_fmt(r), B("%s%s%s" % (m, chr(ec), gens.exp_str(q, r))), radix_cfgs(r, ["rf", "crf"])[:1] or ["rf"],
+                             wo=True, opts=pf(exp=ec), tag="numeric-out-of-range")
     # default API
     ep = cs.new_ep()
     for b in variants(("NaN", "inf", "infinity")):
@@ -1754,6 +1872,13 @@ def plan_C18(tier, rng):
                     continue
                 o = {"lossy": i % 2 == 0, "exp": 101, "point": 46, "nan": ostr(nan), "inf": ostr(inf), "infinity": ostr(infinity)}
                 cs.add({"ep": cs.new_ep(), "op": "options", "kind": "parse_float", "opts": o, "api": "core", "wo": True}, RF, "parse-float-options")
+    # every byte value inside a special string (only ASCII letters are valid)
+    for b in range(256):
+        o = {"lossy": False, "exp": 101, "point": 46, "nan": {"some": True, "s": [78, b, 78]}, "inf": ostr("inf"), "infinity": {"some": True, "s": [105, 110, 102, b]}}
+        cs.add({"ep": ep, "op": "options", "kind": "parse_float", "opts": o, "api": "core", "wo": True}, RF, "options-any-byte-special")
+        o2 = {"max": 0, "min": 0, "pos": 9, "neg": -5, "round": "round", "trim": False, "exp": 101, "point": 46,
+              "nan": {"some": True, "s": [78, 97, b]}, "inf": {"some": True, "s": [b, 110, 102]}}
+        cs.add({"ep": ep, "op": "options", "kind": "write_float", "opts": o2, "api": "core", "wo": True}, RF, "options-any-byte-special")
     for (e_, p_) in bad_punct + [(101, 46), (94, 44), (9, 46), (127, 46), (1, 2)]:
         o = {"lossy": False, "exp": e_, "point": p_, "nan": ostr("NaN"), "inf": ostr("inf"), "infinity": ostr("infinity")}
         cs.add({"ep": ep, "op": "options", "kind": "parse_float", "opts": o, "api": "core", "wo": True}, RF, "parse-float-options")
@@ -1804,6 +1929,8 @@ def run(prop, tier, seed, t0):
         off = max(e["id"] for e in events) + 1
         epoff = max(e["ep"] for e in events) + 1
         for c in cs.cases:
+            if c["_cfg"] not in ("default", "rf"):      # debug-profile workers exist for these two configurations
+                continue
             c3 = dict(c)
             c3["id"] += off
             c3["ep"] += epoff
